@@ -3,6 +3,7 @@ import Proofs.Order
 import Proofs.Walk
 import Proofs.Visits
 import Proofs.EarliestFit
+import Proofs.TeamFit
 import Proofs.EffortGlobal
 import Proofs.WFCheck
 /-!
@@ -141,6 +142,24 @@ theorem list_schedule_in_priority_order (e : Env) (wf : WF e) (tr : Tree e) :
           (dp.target ∈ pre ∧ ((runScenario e).tst dp.target).scheduled = false)) := by
   obtain ⟨order, rest, h1, h2, _, _⟩ := runScenario_placement e wf tr
   exact ⟨order, rest, h1, h2⟩
+
+/-- **C07 for whole projects, teams** (`Proofs/TeamFit`): with the SAME placement order as `list_schedule_in_priority_order`, every
+    forward team task reported as scheduled — several pairwise different leaf resources, neither they (nor their groups) nor the
+    task (nor its containers) limited, no start of its own — occurs in the order, and between the slot of its dependency bound
+    and any slot in which it is booked, every slot in which ALL its members are on shift and not on leave carries the task on
+    every member, or some member carries there a task placed BEFORE it: the team takes the earliest slots in which all its
+    resources are working and unbooked. -/
+theorem team_earliest_fit (e : Env) (wf : WF e) (tr : Tree e) :
+    ∃ order rest : List Nat, Placement e (runScenario e) order rest ∧
+      ∀ t sel, TeamU e t sel → ((runScenario e).tst t).scheduled = true → ((runScenario e).tst t).forward = true →
+        ∃ post pre, order = post ++ t :: pre ∧
+          ∀ L m0, m0 ∈ sel → usageOf ((runScenario e).led.get m0 L).usage t ≠ none →
+            ∀ i, boundSlot e (runScenario e) t ≤ i → i ≤ L → (∀ m ∈ sel, e.onShift m i = true ∧ e.leaveMark m i = false) →
+              (∀ m ∈ sel, usageOf ((runScenario e).led.get m i).usage t ≠ none) ∨
+              ∃ m ∈ sel, ∃ t' ∈ pre, usageOf ((runScenario e).led.get m i).usage t' ≠ none := by
+  obtain ⟨order, rest, hp, hT⟩ := runScenario_placementT e wf tr
+  exact ⟨order, rest, hp, fun t sel hel hs hf =>
+    hT t sel hel (runScenario_scheduled_done e t ⟨hel.el.leaf, hel.el.effort, hel.el.nomile⟩ hs) hf⟩
 
 /-- every entry of the final ledger belongs to a task the loop placed (ghost order of `earliest_fit_in_placement_order`): at the
     level of one round, the ledger after scheduling `t0` holds entries of `t0` and of the tasks it held before, nothing else -/
